@@ -254,10 +254,12 @@ pub fn run(tier: Tier) -> Report {
                     for lv in (-127..=127i16).filter(|l| *l != 0) {
                         push_event(Ev { run, level: lv, form: Form::Esc8 }, last, q, &v0);
                     }
-                    for lv in (-63..=63i16).filter(|l| *l != 0) {
+                    // the Sorenson fields are plain two's-complement numbers without a reserved code (FFmpeg's flv
+                    // reader takes them with get_sbits): the most negative value of each field is a level too
+                    for lv in (-64..=63i16).filter(|l| *l != 0) {
                         push_event(Ev { run, level: lv, form: Form::Esc7 }, last, q, &v1);
                     }
-                    for lv in (-1023..=1023i16).filter(|l| *l != 0) {
+                    for lv in (-1024..=1023i16).filter(|l| *l != 0) {
                         push_event(Ev { run, level: lv, form: Form::Esc11 }, last, q, &v1);
                     }
                 }
